@@ -22,6 +22,14 @@ def replAux (n r : Bytes) : Nat → Bytes → Bytes
 /-- `replace_all_bytes(h, n, r)` -/
 def replaceAll (h n r : Bytes) : Bytes := if n.isEmpty then h else replAux n r 0 h
 
+/-- `Compat n r`: no occurrence of the literal `n` can be created at or across an inserted copy of
+    the replacement `r` (decidable, sufficient for "the literal is gone after one pass", see C07) -/
+def compat (n r : Bytes) : Bool :=
+  !r.isEmpty && !isInfix n r &&
+  (List.range r.length).all (fun j => !startsWith n (r.drop j)) &&
+  (List.range n.length).all (fun i => i == 0 || !startsWith r (n.drop i)) &&
+  (List.range n.length).all (fun i => i == 0 || !startsWith (n.drop i) r)
+
 /-! ### MessageReplacer::from_file / apply -/
 
 def removedToken : Bytes := b!"***REMOVED***"
